@@ -169,6 +169,40 @@ def r14_token_loops(ctx: Context) -> None:
                 rule.ok(key, f"for {norm(node.target)} in {name}")
 
 
+def r14_tokenizer_calls(ctx: Context) -> None:
+    """'Every pass has this same shape': the scan and each half of a fix pass obtain their token
+    stream from the same tokenizer entry with the same options (the end-of-stream token is part of
+    the stream the rules are promised).  Sibling call sites of one interface must agree."""
+    prog = ctx.prog
+    rule = ctx.rule("R14k", "every per-file pass asks the tokenizer for the stream with the same options", 3)
+    tokenizer = prog.method("pymarkdown.general.tokenized_markdown.TokenizedMarkdown", "transform_from_provider")
+    sites = [site for site in prog.callers.get(tokenizer.qualname, []) if site.caller.cls is not None and site.caller.cls.qualname == FSH]
+    if len(sites) < 2:
+        raise AnalysisError(f"only {len(sites)} tokenizer call(s) found in the scan helper (3 confirmed)")
+    parameters = [a.arg for a in tokenizer.node.args.args[1:]]  # type: ignore[attr-defined]
+    defaults = tokenizer.node.args.defaults  # type: ignore[attr-defined]
+    default_of = {name: norm(value) for name, value in zip(parameters[len(parameters) - len(defaults):], defaults)}
+
+    def options(site) -> Dict[str, str]:
+        given = dict(default_of)
+        for name, arg in zip(parameters, site.node.args):
+            given[name] = norm(arg)
+        for keyword in site.node.keywords:
+            if keyword.arg:
+                given[keyword.arg] = norm(keyword.value)
+        return {name: value for name, value in given.items() if name in default_of}
+
+    reference = options(sites[0])
+    for site in sites:
+        key = func_key(site.caller, site.node) + " [tokenizer options]"
+        mine = options(site)
+        if mine == reference and all(value in ("True", "False", "None") or value.isdigit() for value in mine.values()):
+            rule.ok(key, f"{mine}")
+        else:
+            different = {name: (mine.get(name), reference.get(name)) for name in set(mine) | set(reference) if mine.get(name) != reference.get(name)}
+            rule.fail(key, site.where, f"{site.caller.short} asks the tokenizer for a stream with {different or mine} (this call, {sites[0].caller.short}): the passes do not deliver the same stream - for example the end-of-stream token is missing in one of them")
+
+
 def r14c(ctx: Context, rule_id: str = "R14c") -> None:
     """Four-way agreement of the dispatch tables (also R12d)."""
     prog = ctx.prog
@@ -531,6 +565,7 @@ def run(ctx: Context) -> None:
     ra = RaiseAnalysis(ctx.prog)
     r14ab(ctx, ra)
     r14_token_loops(ctx)
+    r14_tokenizer_calls(ctx)
     r14c(ctx)
     r14d(ctx)
     r14e(ctx)
